@@ -246,3 +246,39 @@ for _side, _adj, _ord, _other in (('right_neighbors', 'ladj', 'lorder', 'u'), ('
                     'forall(lambda k: implies(({0} in self.{1}) and 0 <= k and k < len(result), result[k] == self.{1}[{0}][k]))'.format(_other, _adj)]
         + B_UNCHANGED,
     }
+
+# ---------------------------------------------------------------------------------------------------------
+# constructors and a sampler over the proved ADT: bipartite_random_m_edges has exactly m edges for every outcome of the RNG
+CLASSMODELS['BipartiteGraphRep']['fields']['name'] = 'opaque'
+CONTRACTS.update({
+    (G, 'BaseBipartiteGraph.__init__'): {'inline_always': True},
+    (G, 'BaseBipartiteGraph.parts'): {'inline_always': True},
+    (G, 'BipartiteGraphRep.__init__'): {
+        'property': ['C16', 'C15'],
+        'source': (G, 'BipartiteGraph.__init__'),
+        'params': {'self': 'newobj:BipartiteGraphRep', 'L': 'int', 'R': 'int', 'name': 'none'},
+        'raises': {'ValueError': 'L < 0 or R < 0'},
+        'modifies': ['self.lorder', 'self.rorder', 'self.ladj', 'self.radj', 'self.edgeset', 'self.idxl', 'self.idxr', 'self.name'],
+        # the empty graph satisfies the representation invariant
+        'ghost_code': [('self.edgeset = set()', 'self.idxl = lam2(lambda x, w: 0)\nself.idxr = lam2(lambda x, w: 0)')],
+        'ensures': ['self.lorder == L', 'self.rorder == R', 'card2(self.edgeset) == 0',
+                    'forall(lambda x, y: not ((x, y) in self.edgeset))'] + B_INV,
+    },
+    (G, 'bipartite_random_m_edges'): {
+        'property': ['C15'],
+        'params': {'L': 'int', 'R': 'int', 'm': 'int', 'seed': 'none'},
+        'calls_model': {'BipartiteGraph': 'BipartiteGraphRep'},
+        # refused exactly outside the documented range
+        'raises': {'ValueError': 'L < 1 or R < 1 or m < 0 or m > L * R'},
+        'loops': {
+            0: {'inv': ['card2(G.edgeset) == _it', 'G.lorder == L', 'G.rorder == R',
+                        'forall(lambda j: implies(_it <= j and j < m, not ((_iter[j][0], _iter[j][1]) in G.edgeset)))',
+                        'forall(lambda j: implies(0 <= j and j < m, 1 <= _iter[j][0] and _iter[j][0] <= L and 1 <= _iter[j][1] and _iter[j][1] <= R))'] + [c.replace('self.', 'G.') for c in B_INV],
+                'modifies_objects': ['G'], 'modifies_fields': {'G': ['ladj', 'radj', 'edgeset', 'idxl', 'idxr']}},
+            1: {'inv': ['card2(G.edgeset) == count', '0 <= count', 'count <= m', 'G.lorder == L', 'G.rorder == R'] + [c.replace('self.', 'G.') for c in B_INV],
+                'modifies_objects': ['G'], 'modifies_fields': {'G': ['ladj', 'radj', 'edgeset', 'idxl', 'idxr']}},
+        },
+        # exactly m edges, whatever the random generator answers (termination of the sparse retry loop is not claimed)
+        'ensures': ['card2(result.edgeset) == m', 'result.lorder == L', 'result.rorder == R'] + [c.replace('self.', 'result.') for c in B_INV],
+    },
+})
